@@ -72,8 +72,9 @@ OutF(s, op) ==
       [] op.n = "delete"    -> DeleteOut(s, op.a[1])
       [] op.n = "clear"     -> { O([s EXCEPT !.b = <<>>], Unit) }
       [] op.n = "convert"   -> { O([s EXCEPT !.c = CmpName(op.a[1])], Unit) }
-      [] op.n = "merge"     -> MergeOut(s, op.a)
-      [] op.n = "meld"      -> MeldOut(s, op.a)
+      \* mergex / meldx: the second heap was built under the opposite comparator; the result is a heap of the receiver
+      [] op.n \in {"merge", "mergex"} -> MergeOut(s, op.a)
+      [] op.n \in {"meld", "meldx"}   -> MeldOut(s, op.a)
       [] OTHER              -> {}
 
 OutR(s, op, res) ==
